@@ -19,6 +19,25 @@ CHECKS = {
     design='4 C07', note=TB + '; rate schedules transcribed from Rev. Proc. 2020-45/2021-45/2022-38'),
 }
 
+
+ALGO_TEXT = ('The real Solver, DependencyTracker, ValueStore, FormAccessor and InputStore run on generated form programs whose line behaviour '
+             '(read line / read input / not-implemented / return, branching on uninterpreted predicates), input presence, prompt answers/refusals and attempt order '
+             '(symbolic ranks in place of sort_keys) are SMT choices; z3 decides feasibility and the explorer enumerates every case inside the bound (configs listed in the evidence), '
+             'values being EUF terms. %s Violating paths are turned into concrete programs and replayed on the uninstrumented code. (Q1 of DESIGN.md: finite-domain exploration, '
+             'the end-state assertions are evaluated per path.)')
+ALGO_NOTE = TB + '; the oracle contract "a line is a deterministic function of what it reads"; unknown input names excluded (C10)'
+ALGO = {
+ 'C01': 'Asserted on every end state: solve()==True implies every scheduled line has a value, no unimplemented line, no waiter; False implies every unvalued scheduled line is named in the diagnostics; aborts only by NotImplementedError for the unsupported form.',
+ 'C03': 'Asserted on every end state (complete or partial): each stored value equals (EUF, solver-decided) the re-evaluation of its definition against the final stores.',
+ 'C04': 'Asserted on every solved end state: solution keys == required lines of participating forms + lines read by contained lines (observed on re-evaluation), Solver.forms == forms of those lines; on partial solutions nothing undemanded is stored.',
+ 'C05': 'Asserted on every path without a refusal: the result under the explored symbolic attempt order equals the result under the natural order, and the same inputs supplied by file instead of prompt give the same result.',
+ 'C06': 'Asserted on every path: a step budget is never exceeded (termination), each input is prompted at most once and never after a refusal, attempts(line) <= 2 + distinct waits; cycles, self-reference, unsupported form and refusing users are oracle actions.',
+ 'C13': 'Asserted on every path: prompts quote only lines that raised MissingInput for that input, each input asked at most once, a re-run on the written-back store asks nothing and gives the identical result.',
+}
+for _pid, _t in ALGO.items():
+    CHECKS[_pid] = dict(technique='bounded symbolic execution of the real solver algorithm on SMT-chosen form programs (lazy path enumeration, EUF values, symbolic schedule)',
+                        text=ALGO_TEXT % _t, design='3.8, 4 ' + _pid, note=ALGO_NOTE)
+
 NOT_YET = 'check not built yet (work in progress, see DESIGN.md section 4)'
 NA = {}
 
